@@ -1191,4 +1191,477 @@ theorem lexExpressions_body {d : LDoc} (hd : ldocOK d) (hn : (exprBodiesL d).Nod
   rw [lexExpressions_eq, findExprs_body hd, foldE_body hd hn]
   exact lexRefs_body (passE_ok hd st) (passE_noexpr st) _
 
+
+/-! ## 7. tokens, scanner, literal re-insertion -/
+
+theorem phOf_qf (i : Nat) : C04.QF (C05.phOf i) := fun c hc => (phOf_chars i c hc).2.2.2.2
+
+theorem not_anyWord_E (r : Str) : ¬ C04.IsAnyWord ('E' :: r) := by
+  obtain ⟨r', h⟩ := C02.strip_cons (c := 'E') (by decide) r
+  have hl : asciiLower 'E' = 'e' := by decide
+  simp only [C04.IsAnyWord, C04.IsWord, h, List.map_cons, hl]
+  rintro (h | h | h | h | h | h) <;> simp at h
+
+theorem phOf_cons (i : Nat) : C05.phOf i = 'E' :: ("XPRESSION".toList ++ padSix i) := rfl
+
+theorem parseValue_phOf (i : Nat) : parseValue (C05.phOf i) = .str (C05.phOf i) := by
+  have hq := C04.removeQuotes_of_qf (phOf_qf i)
+  have hne : C05.phOf i ≠ [] := by rw [phOf_cons]; simp
+  have hs : ¬ C04.IsSpecial (C05.phOf i) := by
+    rw [phOf_cons]; simp [C04.IsSpecial]
+  have hint : ¬ C04.IsIntLit (C05.phOf i) := by
+    rw [← C04.isIntLit_iff, phOf_cons]
+    have : isDigit 'E' = false := by decide
+    simp [isIntLit, dropSign, spanDigits, this]
+  have hfl : ¬ C04.IsFloatLit (C05.phOf i) := by
+    rw [← C04.isFloatExpLit_iff, phOf_cons]
+    have : isDigit 'E' = false := by decide
+    simp [isFloatExpLit, dropSign, dropMantissa, spanDigits, this]
+  have hw : ¬ C04.IsAnyWord (C05.phOf i) := by rw [phOf_cons]; exact not_anyWord_E _
+  rw [C04.parseValue_word ⟨⟨by rw [hq]; exact hne, hs⟩, hint, hfl⟩, C04.boolNoneWord_other hw, hq]
+
+def allDone (d : LDoc) : Prop := ∀ e ∈ d, ∃ w x, e.2 = .done w x
+
+/-- the token tree of a fully labelled document -/
+def treeOf (d : LDoc) : Entries := d.map fun e => (.str e.1, .leaf (.str e.2.text))
+
+def gapsT : LDoc → List Str
+  | [] => []
+  | _ :: d => [' '] :: [' '] :: [] :: gapsT d
+
+def gapsB : LDoc → List Str
+  | [] => []
+  | _ :: d => [] :: [' '] :: [] :: gapsT d
+
+theorem key_facts {k : Str} (hk : keyOK k = true) :
+    isWordTok k = true ∧ isPhTok k = false ∧ keyOfScalar (parseKey k) = some (.str k) := by
+  obtain ⟨h1, _, h3, _⟩ := keyOK_iff.mp hk
+  obtain ⟨h4, h5, _⟩ := C02.srcWord_facts h1
+  exact ⟨h4, h5, by rw [h3]; rfl⟩
+
+theorem toks_tree : ∀ (d : LDoc), ldocOK d → toksEs (treeOf d) = d.flatMap fun e => [e.1, e.2.text, [';']]
+  | [], _ => rfl
+  | (k, v) :: d, hd => by
+    obtain ⟨hk, _⟩ := hd (k, v) (by simp)
+    have ih := toks_tree d (fun e he => hd e (by simp [he]))
+    rw [treeOf] at ih ⊢
+    simp only [List.map_cons, toksEs, (key_facts hk).2.1, Bool.false_eq_true, if_false, ih, List.flatMap_cons]
+
+theorem spread_tailB : ∀ (d : LDoc), ldocOK d → spread (toksEs (treeOf d)) (gapsT d) [] = tailB d
+  | [], _ => rfl
+  | (k, v) :: d, hd => by
+    have ih := spread_tailB d (fun e he => hd e (by simp [he]))
+    rw [toks_tree _ hd]
+    rw [toks_tree _ (fun e he => hd e (by simp [he]))] at ih
+    simp only [List.flatMap_cons, List.cons_append, List.nil_append, gapsT, spread, ih, tailB_cons, etextL]
+    simp
+
+theorem spread_bodyB : ∀ (d : LDoc), ldocOK d → spread (toksEs (treeOf d)) (gapsB d) [] = bodyB d
+  | [], _ => rfl
+  | (k, v) :: d, hd => by
+    have ih := spread_tailB d (fun e he => hd e (by simp [he]))
+    rw [toks_tree _ hd]
+    rw [toks_tree _ (fun e he => hd e (by simp [he]))] at ih
+    simp only [List.flatMap_cons, List.cons_append, List.nil_append, gapsB, spread, ih, bodyB, etextL]
+    simp
+
+theorem gapsOK_step (t u : Str) (ts : List Str) (g g' : Str) (gs : List Str) :
+    GapsOK (t :: u :: ts) (g :: g' :: gs) =
+      (g.all isWs && (isDelimTok t || isDelimTok u || !g'.isEmpty) && GapsOK (u :: ts) (g' :: gs)) := rfl
+
+theorem nodup_map_inj {α β : Type} {f : α → β} (hf : ∀ a b, f a = f b → a = b) {l : List α} (h : l.Nodup) :
+    (l.map f).Nodup := by
+  rw [List.Nodup, List.pairwise_map]
+  exact List.Pairwise.imp (fun hab e => hab (hf _ _ e)) h
+
+theorem gapsOK_doc : ∀ (d : LDoc) (k w g : Str), g.all isWs = true → ldocOK d →
+    GapsOK (k :: w :: [';'] :: toksEs (treeOf d)) (g :: [' '] :: [] :: gapsT d) = true
+  | [], k, w, g, hg, _ => by
+    simp [GapsOK, treeOf, toksEs, gapsT, hg, isDelimTok, Gen.delimiters]
+    decide
+  | (k', v') :: d, k, w, g, hg, hd => by
+    have ih := gapsOK_doc d k' v'.text [' '] (by decide) (fun e he => hd e (by simp [he]))
+    rw [toks_tree _ hd, List.flatMap_cons]
+    rw [toks_tree _ (fun e he => hd e (by simp [he]))] at ih
+    have hs : isDelimTok [';'] = true := by decide
+    have hw : [' '].all isWs = true := by decide
+    simp only [List.cons_append, List.nil_append, gapsT] at ih ⊢
+    rw [gapsOK_step, gapsOK_step, gapsOK_step, ih]
+    simp [hg, hs, hw]
+
+theorem gapsOK_body : ∀ (d : LDoc), ldocOK d → GapsOK (toksEs (treeOf d)) (gapsB d) = true
+  | [], _ => rfl
+  | (k, v) :: d, hd => by
+    have := gapsOK_doc d k v.text [] rfl (fun e he => hd e (by simp [he]))
+    rw [toks_tree _ hd, List.flatMap_cons]
+    rw [toks_tree _ (fun e he => hd e (by simp [he]))] at this
+    exact this
+
+theorem tokWF_tree : ∀ (d : LDoc), ldocOK d → allDone d → TokWFEs (treeOf d) = true
+  | [], _, _ => rfl
+  | (k, v) :: d, hd, ha => by
+    obtain ⟨hk, hv⟩ := hd (k, v) (by simp)
+    obtain ⟨w, x, hw⟩ := ha (k, v) (by simp)
+    simp only at hw
+    subst hw
+    have ih := tokWF_tree d (fun e he => hd e (by simp [he])) (fun e he => ha e (by simp [he]))
+    obtain ⟨h1, h2, h3⟩ := key_facts hk
+    have ht : (LV.done w x).text = w := rfl
+    have hv1 : isWordTok w = true := hv.1
+    have hv2 : isPhTok w = false := hv.2.1
+    rw [treeOf] at ih ⊢
+    simp only [List.map_cons, TokWFEs, h2, Bool.false_eq_true, if_false, h1, h3, Option.isSome_some, ht, hv1, hv2,
+      Bool.not_false, Bool.and_self, ih]
+
+/-- entries assigned one after the other (`d[key] = value`) -/
+def denAcc (f : LV → Val) : LDoc → Entries → Entries
+  | [], acc => acc
+  | e :: d, acc => denAcc f d (setKey (.str e.1) (f e.2) acc)
+
+theorem denEs_tree : ∀ (d : LDoc), ldocOK d → ∀ (acc : Entries),
+    denEs (treeOf d) acc = denAcc (fun v => .leaf (parseValue v.text)) d acc
+  | [], _, _ => rfl
+  | (k, v) :: d, hd, acc => by
+    obtain ⟨hk, _⟩ := hd (k, v) (by simp)
+    obtain ⟨_, h2, h3⟩ := key_facts hk
+    have ih := denEs_tree d (fun e he => hd e (by simp [he])) (setKey (.str k) (.leaf (parseValue v.text)) acc)
+    rw [treeOf] at ih ⊢
+    simp only [List.map_cons, denEs, h2, Bool.false_eq_true, if_false, h3, denAcc, ih]
+
+theorem denAcc_nodup (f : LV → Val) : ∀ (d : LDoc) (acc : Entries),
+    (keys acc ++ d.map fun e => Key.str e.1).Nodup → denAcc f d acc = acc ++ d.map fun e => (.str e.1, f e.2)
+  | [], acc, _ => by simp [denAcc]
+  | e :: d, acc, h => by
+    have hi : Key.str e.1 ∉ keys acc := by
+      intro hm
+      exact (List.nodup_append.mp h).2.2 _ hm _ (by simp) rfl
+    rw [denAcc, C07.setKey_of_not_mem _ _ _ hi, denAcc_nodup f d _ (by simpa [keys] using h)]
+    simp
+
+/-- what a labelled word means, through the literal table -/
+def DoneRel (T : Tbl Str) : LV → Prop
+  | .done w x => C02.RV T 1 (.leaf (parseValue w)) (.leaf x)
+  | _ => True
+
+theorem REs_denAcc (T : Tbl Str) : ∀ (d : LDoc), allDone d → (∀ e ∈ d, DoneRel T e.2) → ∀ (acc acc' : Entries),
+    C02.REs T 1 acc acc' →
+    C02.REs T 1 (denAcc (fun v => .leaf (parseValue v.text)) d acc) (denAcc (fun v => .leaf v.val) d acc')
+  | [], _, _, acc, acc', h => h
+  | (k, v) :: d, ha, hr, acc, acc', h => by
+    obtain ⟨w, x, hw⟩ := ha (k, v) (by simp)
+    simp only at hw
+    subst hw
+    have hrel := hr (k, .done w x) (by simp)
+    exact REs_denAcc T d (fun e he => ha e (by simp [he])) (fun e he => hr e (by simp [he])) _ _
+      (C02.REs_setKey (.str k) hrel acc acc' h)
+
+theorem ldata_eq {d : LDoc} (hn : (d.map (·.1)).Nodup) : denAcc (fun v => .leaf v.val) d [] = ldata d := by
+  rw [denAcc_nodup _ d [] (by
+    simp only [keys, List.map_nil, List.nil_append]
+    have : (d.map fun e => Key.str e.1) = (d.map (·.1)).map Key.str := by simp
+    rw [this]
+    exact nodup_map_inj (fun a b h => by cases h; rfl) hn)]
+  simp [ldata]
+
+theorem doneRel_ph (T : Tbl Str) (i : Nat) : DoneRel T (.done (C05.phOf i) (.str (C05.phOf i))) := by
+  simp only [DoneRel, C02.RV, parseValue_phOf]
+  exact Or.inl ⟨phOf_noLit i, trivial⟩
+
+theorem labE_doneRel {T : Tbl Str} {sel : LV → Option Str} {v : LV} (st : LexSt) (h : DoneRel T v) :
+    DoneRel T (labE sel st v).2 := by
+  cases hs : sel v with
+  | none => rw [labE_none st hs]; exact h
+  | some t => rw [labE_some st hs]; exact doneRel_ph T _
+
+/-! ## 8. the ids and tables of the passes -/
+
+def cnt {α : Type} (p : α → Bool) (d : List (Str × α)) : Nat := (d.filter fun e => p e.2).length
+
+theorem cnt_cons {α : Type} (p : α → Bool) (e : Str × α) (d : List (Str × α)) :
+    cnt p (e :: d) = (if p e.2 then 1 else 0) + cnt p d := by
+  simp only [cnt, List.filter_cons]
+  split <;> simp <;> omega
+
+theorem mapSt_cnt {α β : Type} (f : LexSt → α → LexSt × β) (p : α → Bool) (q : β → Bool)
+    (h : ∀ st v, q (f st v).2 = p v) : ∀ (st : LexSt) (d : List (Str × α)), cnt q (mapSt f st d).2 = cnt p d
+  | _, [] => rfl
+  | st, (k, v) :: d => by rw [mapSt_cons, cnt_cons, cnt_cons, h, mapSt_cnt f p q h]
+
+def isQuotedDV : DV → Bool
+  | .lit (.quoted _ _) => true
+  | _ => false
+
+def isExprDV : DV → Bool
+  | .expr _ => true
+  | _ => false
+
+def isRefDV : DV → Bool
+  | .ref _ => true
+  | _ => false
+
+/-- number of ids a document draws: one per quoted string, expression and reference -/
+def countIds' (doc : Doc) : Nat := cnt isQuotedDV doc + cnt isExprDV doc + cnt isRefDV doc
+
+theorem fresh_fst (st : LexSt) : st.fresh.1 = (Counter.next Gen.counterLimit st.counter).1 := rfl
+theorem fresh_counter (st : LexSt) : st.fresh.2.counter = (Counter.next Gen.counterLimit st.counter).2 := rfl
+
+/-- the `(id, body)` pairs pass 1 records -/
+def drawn1 : LexSt → Doc → List (Nat × Str)
+  | _, [] => []
+  | st, (_, v) :: d =>
+    (match v with | .lit (.quoted _ b) => [(st.fresh.1, b)] | _ => []) ++ drawn1 (lab1 st v).1 d
+
+theorem lab1_other {st : LexSt} {v : DV} (h : isQuotedDV v = false) : (lab1 st v).1 = st := by
+  cases v with
+  | lit l => cases l with
+    | bare w => rfl
+    | quoted q b => simp [isQuotedDV] at h
+  | ref n => rfl
+  | expr b => rfl
+
+theorem pass1_state : ∀ (doc : Doc) (st : LexSt),
+    (mapSt lab1 st doc).1.lits = C02.setAll st.lits (drawn1 st doc) ∧
+    (drawn1 st doc).map (·.1) = alloc Gen.counterLimit (cnt isQuotedDV doc) st.counter ∧
+    (mapSt lab1 st doc).1.counter = C02.adv Gen.counterLimit (cnt isQuotedDV doc) st.counter ∧
+    C02.Front.SameT (mapSt lab1 st doc).1 st
+  | [], st => ⟨rfl, rfl, rfl, C02.Front.SameT.rfl' st⟩
+  | (k, v) :: d, st => by
+    obtain ⟨h1, h2, h3, h4⟩ := pass1_state d (lab1 st v).1
+    rw [mapSt_cons, cnt_cons]
+    cases hq : isQuotedDV v with
+    | false =>
+      have hst := lab1_other (st := st) hq
+      have hd : drawn1 st ((k, v) :: d) = drawn1 (lab1 st v).1 d := by
+        cases v with
+        | lit l => cases l with
+          | bare w => rfl
+          | quoted q b => simp [isQuotedDV] at hq
+        | ref n => rfl
+        | expr b => rfl
+      rw [hd]
+      simp only [Bool.false_eq_true, if_false, Nat.zero_add]
+      rw [hst] at h1 h2 h3 h4 ⊢
+      exact ⟨h1, h2, h3, h4⟩
+    | true =>
+      obtain ⟨q, b, rfl⟩ : ∃ q b, v = .lit (.quoted q b) := by
+        cases v with
+        | lit l => cases l with
+          | bare w => simp [isQuotedDV] at hq
+          | quoted q b => exact ⟨q, b, rfl⟩
+        | ref n => simp [isQuotedDV] at hq
+        | expr b => simp [isQuotedDV] at hq
+      simp only [if_true]
+      rw [show 1 + cnt isQuotedDV d = cnt isQuotedDV d + 1 by omega]
+      refine ⟨?_, ?_, ?_, ?_⟩
+      · rw [h1]; rfl
+      · simp only [drawn1, List.singleton_append, List.map_cons, h2, C13.alloc_succ]
+        rfl
+      · rw [h3]; rfl
+      · exact C02.Front.SameT.trans h4 ⟨rfl, rfl, rfl, rfl⟩
+
+theorem drawn1_clean : ∀ (doc : Doc) (st : LexSt), (∀ e ∈ doc, dvOK e.2 = true) →
+    ∀ p ∈ drawn1 st doc, isInfix kwLit p.2 = false
+  | [], _, _, p, hp => by simp [drawn1] at hp
+  | (k, v) :: d, st, h, p, hp => by
+    simp only [drawn1, List.mem_append] at hp
+    rcases hp with hp | hp
+    · cases v with
+      | lit l => cases l with
+        | bare w => simp at hp
+        | quoted q b =>
+          simp only [List.mem_singleton] at hp
+          subst hp
+          have := h (k, .lit (.quoted q b)) (by simp)
+          simp only [dvOK, Bool.and_eq_true] at this
+          exact C02.isSrcQuoted_clean this.1
+      | ref n => simp at hp
+      | expr b => simp at hp
+    · exact drawn1_clean d _ (fun e he => h e (by simp [he])) p hp
+
+theorem pass1_rel (T : Tbl Str) : ∀ (doc : Doc) (st : LexSt), (∀ e ∈ doc, dvOK e.2 = true) →
+    (∀ p ∈ drawn1 st doc, p ∈ T) → ∀ e ∈ (mapSt lab1 st doc).2, DoneRel T e.2
+  | [], _, _, _, e, he => by simp [mapSt_nil] at he
+  | (k, v) :: d, st, h, hT, e, he => by
+    rw [mapSt_cons] at he
+    simp only [drawn1, List.mem_append] at hT
+    rcases List.mem_cons.mp he with rfl | he
+    · cases v with
+      | lit l =>
+        have hv := h (k, .lit l) (by simp)
+        simp only [dvOK, Bool.and_eq_true] at hv
+        cases l with
+        | bare w =>
+          simp only [lab1, DoneRel, C02.RV]
+          exact Or.inl ⟨C02.clean_parseValue_word hv.1, trivial⟩
+        | quoted q b =>
+          simp only [lab1, DoneRel, C02.RV, C02.parseValue_litPh]
+          exact Or.inr ⟨st.fresh.1, b, hT _ (Or.inl (by simp)), rfl, rfl, by decide⟩
+      | ref n => trivial
+      | expr b => trivial
+    · exact pass1_rel T d _ (fun e he => h e (by simp [he])) (fun p hp => hT p (Or.inr hp)) e he
+
+/-! ### passes 2 and 3 -/
+
+/-- the `(id, key, text)` triples an expression pass records -/
+def drawnE (sel : LV → Option Str) : LexSt → LDoc → List (Nat × Str × Str)
+  | _, [] => []
+  | st, (k, v) :: d =>
+    (match sel v with | some t => [(st.fresh.1, k, t)] | none => []) ++ drawnE sel (labE sel st v).1 d
+
+def toTbl (D : List (Nat × Str × Str)) : Tbl ExprEntry := D.map fun e => (e.1, ⟨e.2.2, C05.phOf e.1⟩)
+
+def setAllE (t l : Tbl ExprEntry) : Tbl ExprEntry := l.foldl (fun t p => t.set p.1 p.2) t
+
+theorem tbl_set_fresh {α : Type} {i : Nat} {a : α} : ∀ {t : Tbl α}, i ∉ t.map (·.1) → Tbl.set i a t = t ++ [(i, a)]
+  | [], _ => rfl
+  | (j, b) :: t, h => by
+    have hj : ¬ j = i := fun e => h (by simp [e])
+    have h' : i ∉ t.map (·.1) := fun hm => h (by simp [hm])
+    simp only [Tbl.set, hj, if_false, List.cons_append, tbl_set_fresh h']
+
+theorem setAllE_nodup : ∀ (l t : Tbl ExprEntry), (t.map (·.1) ++ l.map (·.1)).Nodup → setAllE t l = t ++ l
+  | [], t, _ => by simp [setAllE]
+  | (i, a) :: l, t, h => by
+    have hi : i ∉ t.map (·.1) := by
+      intro hm
+      exact (List.nodup_append.mp h).2.2 i hm i (by simp) rfl
+    have h' : ((t ++ [(i, a)]).map (·.1) ++ l.map (·.1)).Nodup := by simpa using h
+    show setAllE (Tbl.set i a t) l = _
+    rw [tbl_set_fresh hi, setAllE_nodup l _ h']
+    simp
+
+theorem setAllE_append (t l l' : Tbl ExprEntry) : setAllE t (l ++ l') = setAllE (setAllE t l) l' := by
+  simp [setAllE, List.foldl_append]
+
+theorem passE_state (sel : LV → Option Str) : ∀ (d : LDoc) (st : LexSt),
+    (mapSt (labE sel) st d).1.exprs = setAllE st.exprs (toTbl (drawnE sel st d)) ∧
+    (drawnE sel st d).map (·.1) = alloc Gen.counterLimit (cnt (fun v => (sel v).isSome) d) st.counter ∧
+    (mapSt (labE sel) st d).1.counter = C02.adv Gen.counterLimit (cnt (fun v => (sel v).isSome) d) st.counter ∧
+    (mapSt (labE sel) st d).1.lits = st.lits ∧ C02.Front.SameC (mapSt (labE sel) st d).1 st
+  | [], st => ⟨rfl, rfl, rfl, rfl, rfl, rfl, rfl⟩
+  | (k, v) :: d, st => by
+    obtain ⟨h1, h2, h3, h4, h5⟩ := passE_state sel d (labE sel st v).1
+    rw [mapSt_cons, cnt_cons]
+    cases hs : sel v with
+    | none =>
+      rw [labE_none st hs] at h1 h2 h3 h4 h5 ⊢
+      simp only [drawnE, hs, List.nil_append, Option.isSome_none, Bool.false_eq_true, if_false, Nat.zero_add,
+        labE_none st hs]
+      exact ⟨h1, h2, h3, h4, h5⟩
+    | some t =>
+      rw [labE_some st hs] at h1 h2 h3 h4 h5 ⊢
+      simp only [drawnE, hs, Option.isSome_some, if_true, labE_some st hs]
+      rw [show 1 + cnt (fun v => (sel v).isSome) d = cnt (fun v => (sel v).isSome) d + 1 by omega]
+      refine ⟨?_, ?_, ?_, ?_, ?_⟩
+      · rw [h1]; rfl
+      · simp only [List.singleton_append, List.map_cons, h2, C13.alloc_succ]
+        rfl
+      · rw [h3]; rfl
+      · rw [h4]; rfl
+      · exact C02.Front.SameC.trans h5 ⟨rfl, rfl, rfl⟩
+
+/-! ## 9. the native parser on a flat document with expressions -/
+
+theorem passE_rel {T : Tbl Str} {sel : LV → Option Str} {d : LDoc} (st : LexSt) (h : ∀ e ∈ d, DoneRel T e.2) :
+    ∀ e ∈ (mapSt (labE sel) st d).2, DoneRel T e.2 := by
+  intro e he
+  obtain ⟨st', v, hm, hv⟩ := mapSt_mem (labE sel) st d e he
+  rw [hv]
+  exact labE_doneRel st' (h _ hm)
+
+theorem passR_allDone {d : LDoc} (st : LexSt) (hE : ∀ e ∈ d, selE e.2 = none) : allDone (mapSt (labE selR) st d).2 := by
+  intro e he
+  obtain ⟨st', v, hm, hv⟩ := mapSt_mem (labE selR) st d e he
+  rcases selR_cases (hE _ hm) with ⟨w, x, rfl, hs⟩ | ⟨n, rfl, hs⟩
+  · rw [labE_none st' hs] at hv; exact ⟨w, x, hv⟩
+  · rw [labE_some st' hs] at hv; exact ⟨_, _, hv⟩
+
+theorem limit_eq : Gen.counterLimit = 999999 := by decide
+
+theorem ldata_keys (d : LDoc) : keys (ldata d) = (d.map (·.1)).map Key.str := by
+  simp [ldata, keys]
+
+theorem ldata_clean {d : LDoc} (hd : ldocOK d) (hn : (d.map (·.1)).Nodup) (x : Tbl ExprEntry) :
+    (({ data := ldata d, exprs := x } : SD).clean) = { data := ldata d, exprs := x } := by
+  apply C07.clean_id
+  · refine ⟨?_, ?_⟩
+    · rw [ldata_keys]; exact nodup_map_inj (fun a b h => by cases h; rfl) hn
+    · rw [C07.nodupKeysEs_iff]
+      intro e he
+      simp only [ldata, List.mem_map] at he
+      obtain ⟨a, _, rfl⟩ := he
+      trivial
+  · rw [C07.noPhEs_iff]
+    intro e he
+    simp only [ldata, List.mem_map] at he
+    obtain ⟨a, ha, rfl⟩ := he
+    obtain ⟨hk, _⟩ := hd a ha
+    exact ⟨C02.Main.typedKey_noPh (keyOK_iff.mp hk).1 (key_facts hk).2.2, trivial⟩
+
+theorem ldata_docKeys {d : LDoc} (hd : ldocOK d) : dropDocKeys (ldata d) = ldata d := by
+  apply C02.dropDocKeys_id
+  · rw [lookup_eq_none_iff, ldata_keys]
+    intro hm
+    simp only [List.mem_map] at hm
+    obtain ⟨k, ⟨a, ha, rfl⟩, hk⟩ := hm
+    exact (keyOK_iff.mp (hd a ha).1).2.2.2.1 (Key.str.inj hk)
+  · rw [lookup_eq_none_iff, ldata_keys]
+    intro hm
+    simp only [List.mem_map] at hm
+    obtain ⟨k, ⟨a, ha, rfl⟩, hk⟩ := hm
+    exact (keyOK_iff.mp (hd a ha).1).2.2.2.2 (Key.str.inj hk)
+
+/-- **the native parser on a well-formed flat document with references and expressions**: the data hold the typed
+    literals and, for every reference and expression, the placeholder word `EXPRESSIONnnnnnn`; the expression table holds
+    the texts; ids are drawn from the global counter: first one per quoted string, then one per double-quoted expression,
+    then one per bare reference, each group in text order -/
+theorem parse_flat_exprs {doc : Doc} (comments : Bool) (dir : Str) (c : Counter) (h : DocWF doc = true)
+    (hc : C13.ValidCounter Gen.counterLimit c) (hn : countIds' doc ≤ Gen.counterLimit + 1) :
+    parseNative comments dir c (render doc) = .ok (exprSD c doc, (labelAll c doc).1.counter) := by
+  obtain ⟨hall, hkeys, hbod⟩ := docWF_iff.mp h
+  -- names for the three passes
+  have hd1 : ldocOK (mapSt lab1 { counter := c } doc).2 := pass1_ok h _
+  have hb1 : (exprBodiesL (mapSt lab1 { counter := c } doc).2).Nodup := by rw [pass1_bodies]; exact hbod
+  have hd2 := passE_ok (sel := selE) hd1 (mapSt lab1 { counter := c } doc).1
+  have hE2 := passE_noexpr (d := (mapSt lab1 { counter := c } doc).2) (mapSt lab1 { counter := c } doc).1
+  have hd3 : ldocOK (labelAll c doc).2 := passE_ok (sel := selR) hd2 _
+  have ha3 : allDone (labelAll c doc).2 := passR_allDone _ hE2
+  have hk3 : ((labelAll c doc).2.map (·.1)).Nodup := by
+    simp only [labelAll, mapSt_keys]; exact hkeys
+  -- the literal table
+  obtain ⟨p1, p2, _, _⟩ := pass1_state doc { counter := c }
+  have hq : cnt isQuotedDV doc ≤ Gen.counterLimit + 1 := by unfold countIds' at hn; omega
+  have hnd : ((drawn1 { counter := c } doc).map (·.1)).Nodup := by rw [p2]; exact C13.alloc_nodup hq hc
+  have hle : ∀ p ∈ drawn1 { counter := c } doc, p.1 ≤ 999999 := by
+    intro p hp
+    have : p.1 ∈ alloc Gen.counterLimit (cnt isQuotedDV doc) c := by
+      rw [← p2]; exact List.mem_map.mpr ⟨p, hp, rfl⟩
+    have := C13.alloc_le hc _ _ this
+    rw [limit_eq] at this; exact this
+  have hT : (labelAll c doc).1.lits = drawn1 { counter := c } doc := by
+    simp only [labelAll]
+    rw [(passE_state selR _ _).2.2.2.1, (passE_state selE _ _).2.2.2.1, p1,
+      C02.setAll_nodup _ _ (by simpa using hnd)]
+    rfl
+  have hrel : ∀ e ∈ (labelAll c doc).2, DoneRel (drawn1 { counter := c } doc) e.2 :=
+    passE_rel _ (passE_rel _ (pass1_rel _ doc _ (fun e he => (hall e he).2) (fun _ hp => hp)))
+  have hins : insertLiterals (labelAll c doc).1.lits (denEs (treeOf (labelAll c doc).2) []) = .ok (ldata (labelAll c doc).2) := by
+    rw [hT, denEs_tree _ hd3, ← ldata_eq hk3]
+    exact C02.insertLiterals_of_rel _ hnd hle (drawn1_clean doc _ (fun e he => (hall e he).2)) _ _
+      (REs_denAcc _ _ ha3 hrel [] [] (by simp only [C02.REs]))
+  have hscan := C02.C02_layout_tolerant_tokens (treeOf (labelAll c doc).2) (gapsB (labelAll c doc).2) []
+    (tokWF_tree _ hd3 ha3) (gapsOK_body _ hd3) rfl
+  rw [spread_bodyB _ hd3] at hscan
+  have hX : C02.parseBlockX c (render doc) =
+      .ok (ldata (labelAll c doc).2, (labelAll c doc).1.exprs, (labelAll c doc).1.counter) := by
+    unfold C02.parseBlockX
+    simp only [normalise_render h, lex1_body h, bind, Except.bind, lexExpressions_body hd1 hb1]
+    have e3 : mapSt (labE selR) (mapSt (labE selE) (mapSt lab1 { counter := c } doc).1 (mapSt lab1 { counter := c } doc).2).1
+        (mapSt (labE selE) (mapSt lab1 { counter := c } doc).1 (mapSt lab1 { counter := c } doc).2).2 = labelAll c doc := rfl
+    simp only [e3, hscan, hins]
+    rfl
+  rw [C02.front_gen comments dir c (render_noMarkup h), hX]
+  simp only [Except.map, ldata_clean hd3 hk3, ldata_docKeys hd3]
+  rfl
+
 end DictIO.C05R
